@@ -117,6 +117,7 @@ class TextfileRun(Contract):
         st.assume(z3.Not(z3.Contains(buf, d)))      # invariant: the held-back tail contains no delimiter
         g['emitted_s'] = VSeq(z3.Empty(SeqStrS), K_STRING)
         g['sleeps'] = VInt(0)
+        g['unawaited'] = VInt(0)         # records pushed downstream whose delivery this coroutine has not awaited yet
         g['line'] = VString(line)
         selfv = st.new_obj('from_textfile', {'buffer': VString(buf), 'delimiter': VString(d),
                                              'file': VRef(z3.Const('file', sym.Obj), 'File'),
@@ -138,8 +139,15 @@ class TextfileRun(Contract):
 
         def emit(I, recv, args, kwargs):
             g = I.st.ghost
+            if 'unawaited' in g:
+                I.oblige('C03.previous_record_is_awaited_before_the_next_is_pushed', g['unawaited'].t == 0, kind='callsite',
+                         note='sources await the downstream result of each emission before reading / pushing more (backpressure)')
+                I.st.obligations[-1].props = ['C03']
+                g['unawaited'] = VInt(g['unawaited'].t + 1)
             g['emitted_s'] = VSeq(z3.Concat(g['emitted_s'].t, z3.Unit(I.string_term(args[0]))), K_STRING)
-            return I.st.new_list(z3.Const(sym.fresh_name('aws'), sym.SeqAwS), sym.K_AW)
+            t = z3.Const(sym.fresh_name('aws'), sym.SeqAwS)
+            g['last_emit_term'] = t
+            return I.st.new_list(t, sym.K_AW)
 
         def split(I, recv, args, kwargs):
             s = I.string_term(recv)
@@ -156,13 +164,26 @@ class TextfileRun(Contract):
 
     def spec_funcs(self):
         def gather(I, args, kwargs, fr):
-            return VAw(z3.Const(sym.fresh_name('gather'), sym.Aw))
+            a = VAw(z3.Const(sym.fresh_name('gather'), sym.Aw))
+            last = I.st.ghost.get('last_emit_term')
+            a.covers_last_emit = False
+            for x in args:
+                v = x[1] if isinstance(x, tuple) else x
+                try:
+                    t, k = I.seq_term(v)
+                except Unsupported:
+                    continue
+                if last is not None and t is not None and t.eq(last):
+                    a.covers_last_emit = True
+            return a
 
         def sleep(I, args, kwargs, fr):
             I.st.ghost['sleeps'] = VInt(I.st.ghost['sleeps'].t + 1)
             return VAw(z3.Const(sym.fresh_name('sleep'), sym.Aw))
 
         def yield_(I, v, node, fr):
+            if getattr(v, 'covers_last_emit', False) and 'unawaited' in I.st.ghost:
+                I.st.ghost['unawaited'] = VInt(0)
             return NONE
 
         def cat_(I, s):
@@ -183,15 +204,18 @@ class TextfileRun(Contract):
 
     def loop_specs(self):
         return {('from_textfile._run', 0): LoopSpec(
-            modifies=['ghost:emitted_s'],
-            invariant=[('one_record_per_processed_part', 'emitted_s == with_delim(_P)')],
-            props=['C17'], name='parts')}
+            modifies=['ghost:emitted_s', 'ghost:unawaited'],
+            invariant=[('one_record_per_processed_part', 'emitted_s == with_delim(_P)'),
+                       ('every_pushed_record_has_been_awaited', 'unawaited == 0')],
+            props=['C17', 'C03'], name='parts')}
 
     def clauses(self):
         return [
             Clause('C17.text_is_conserved', ['C17'], when='return',
                    text='old(self.buffer) + line == cat(emitted_s) + self.buffer',
                    note='what was held back plus what was read == the emitted records (in order, unmodified) plus the new tail'),
+            Clause('C03.every_pushed_record_has_been_awaited', ['C03'], when='return', text='unawaited == 0',
+                   note='the source reads more only after everything it pushed has been consumed downstream'),
             Clause('C17.tail_has_no_delimiter', ['C17'], when='return', text='not (self.delimiter in self.buffer)',
                    note='an unterminated tail is held back; a terminated record never stays in the buffer'),
             Clause('C17.records_are_cut_at_the_leftmost_delimiter', ['C17'], when='return', text='rec_ok(emitted_s)',
